@@ -881,6 +881,17 @@ pub fn c14_configs(thorough: bool) -> Vec<EpCfg> {
                     st.push((format!("PUBLISH q0 payload {payload} rl {} bytes", pad + 1), f));
                 }
             }
+            // oversize frames of a type this role never receives (minimal Remaining Length, well-formed): the size
+            // comes first - DISCONNECT 'Packet too large', not only a protocol error
+            if role == RoleK::Client {
+                // SUBSCRIBE id 1, no properties, filter "aaaa", options 0: 12 bytes; PINGREQ padded to 5 bytes
+                st.push(("SUBSCRIBE (12 bytes) to a client".to_string(), vec![0x82, 10, 0, 1, 0, 0, 4, b'a', b'a', b'a', b'a', 0]));
+                st.push(("UNSUBSCRIBE (11 bytes) to a client".to_string(), vec![0xA2, 9, 0, 1, 0, 0, 4, b'a', b'a', b'a', b'a']));
+            } else {
+                // SUBACK id 1, no properties, eight codes: 13 bytes; UNSUBACK likewise
+                st.push(("SUBACK (13 bytes) to a server".to_string(), vec![0x90, 11, 0, 1, 0, 0, 0, 0, 0, 0, 0, 0, 0]));
+                st.push(("UNSUBACK (13 bytes) to a server".to_string(), vec![0xB0, 11, 0, 1, 0, 0, 0, 0, 0, 0, 0, 0, 0]));
+            }
             c.stimuli = std::sync::Arc::new(st);
             c.groups = vec!["c14"];
             v.push(c);
